@@ -278,3 +278,134 @@ def clone_setup_hook(cls):
 clone_setup_hook(safety("_trait_clone", "method", extra=clone_extra, props=("C18", "C14"), replay=dict(harness="hastraits", family="clone"),
                         doc="CTrait.clone(source): 'cloning ... trait definitions' leaves no reference behind: the six object-valued "
                             "definition fields the trait held before are released, the source's are shared with a reference each."))
+
+
+# ---------------------------------------------------------------------------------------------------------------------
+# the remaining attribute handlers and small entry points
+# ---------------------------------------------------------------------------------------------------------------------
+def generic_api(cls):
+    """PyObject_GenericSetAttr: 0, or -1 with an exception; runs Python code (descriptors)"""
+    orig = cls.configure
+
+    def configure(self, cx, ex, ov):
+        orig(self, cx, ex, ov)
+
+        def generic_set(ex2, args, st, k):
+            st = ex2.api.nonnull(st, args[0], "PyObject_GenericSetAttr")
+            st = st.log(("generic-setattr",) + tuple(args))
+            s1 = ex2.api.havoc(st, "PyObject_GenericSetAttr")
+            e = cx.fresh("exc", INT)
+            return k(z3.IntVal(0), s1) + k(z3.IntVal(-1), s1.assume(e >= 1).with_exc(e))
+        cx.summaries["PyObject_GenericSetAttr"] = generic_set
+    cls.configure = configure
+    return cls
+
+
+safety("getattr_python", "getattr", props=("C18", "C13"), doc="plain Python attribute read")
+safety("getattr_generic", "getattr", props=("C18", "C13"), doc="plain Python attribute read")
+safety("getattr_constant", "getattr", props=("C18", "C13"),
+       invariant=lambda ex, st, a: [fld(ex, st, "default_value", a["trait"]) != NULL],
+       extra=lambda cx, ex, info, ret, st: [("post:a-constant-reads-as-its-value", ret == fld(ex, info["st0"], "default_value", info["args"]["trait"]))],
+       assumptions=("A-TYPEINV: a Constant trait carries its value in default_value",), doc="Constant(value): reads as the value")
+generic_api(safety("setattr_generic", "setattr", returns="int", props=("C18", "C13"), doc="plain Python attribute write / delete"))
+
+
+def python_set_extra(cx, ex, info, ret, st):
+    a = info["args"]
+    sets = [r for r in st.trace if r[0] == "dict-set"]
+    dels = [r for r in st.trace if r[0] == "dict-del"]
+    is_str = A.is_inst(a["name"], "PyUnicode_Type")
+    out = [("post:non-string-name-is-refused", z3.Implies(z3.Not(is_str), z3.And(ret < 0, z3.BoolVal(not sets and not dels)))),
+           ("post:assignment-stores-the-value-as-is", z3.Implies(z3.And(ret == 0, a["value"] != NULL), z3.And(
+               z3.BoolVal(len(sets) == 1), sets[0][2] == a["name"], sets[0][3] == a["value"]) if sets else z3.BoolVal(False))),
+           ("post:deletion-never-stores", z3.Implies(a["value"] == NULL, z3.BoolVal(not sets)))]
+    return out
+
+
+safety("setattr_python", "setattr", returns="int", props=("C18", "C13"), extra=python_set_extra,
+       doc="Python-style attribute (names with a leading underscore by default): the value goes into the instance dictionary unvalidated; "
+           "deleting a missing attribute is an AttributeError")
+
+
+def event_extra(cx, ex, info, ret, st):
+    a = info["args"]
+    v = [r for r in st.trace if r[0] == "validate"]
+    n = [r for r in st.trace if r[0] == "call_notifiers"]
+    out = [("post:an-event-stores-nothing", z3.BoolVal(not any(r[0] in ("dict-set", "store") for r in st.trace))),
+           ("post:validated-at-most-once-and-notified-at-most-once", z3.BoolVal(len(v) <= 1 and len(n) <= 1)),
+           ("post:deleting-an-event-does-nothing", z3.Implies(a["value"] == NULL, z3.And(ret == 0, z3.BoolVal(not v and not n))))]
+    if n:
+        fired = st.ghost.get("validated") if v else a["value"]
+        out.append(("post:handlers-get-Undefined-as-old-and-the-validated-value-as-new", z3.And(
+            n[0][3] == a["obj"], n[0][4] == a["name"], n[0][5] == A.SINGLETONS["Undefined"], n[0][6] == fired)))
+    if st.ghost.get("validate_failed"):
+        out.append(("raise:a-rejected-value-fires-nothing", z3.And(ret < 0, z3.BoolVal(not n))))
+    return out
+
+
+safety("setattr_event", "setattr", returns="int", props=("C18", "C02", "C01"), extra=event_extra,
+       doc="Event / Button: assignment validates, fires the handlers with (Undefined, value) and stores nothing")
+safety("post_setattr_trait_python", "post_setattr", returns="int", props=("C18",),
+       invariant=lambda ex, st, a: [fld(ex, st, "py_post_setattr", a["trait"]) != NULL],
+       extra=one_call("py_post_setattr", ("obj", "name", "value")),
+       assumptions=("A-TYPEINV: installed only together with the Python post_setattr callable (set_trait_post_setattr)",),
+       doc="post_setattr hook: called once with (object, name, value)")
+safety("_trait_validate", "method", props=("C18",), doc="CTrait.validate(object, name, value)")
+
+
+def with_summaries(cls, **summaries):
+    orig = cls.configure
+
+    def configure(self, cx, ex, ov):
+        orig(self, cx, ex, ov)
+        for nm, fn in summaries.items():
+            cx.summaries[nm] = fn(cx)
+    cls.configure = configure
+    return cls
+
+
+def _get_trait_summary(cx):
+    def get_trait(ex2, args, st, k):
+        """get_trait by its contract (contracts/c/get_trait.py): a new reference to a trait / None, or NULL with an error"""
+        st = st.log(("get_trait",) + tuple(args))
+        return ex2.api.python_call(st, "get_trait", k, lambda s: k(NULL, s), result_prefix="trait")
+    return get_trait
+
+
+def _getattro_summary(cx):
+    def getattro(ex2, args, st, k):
+        st = st.log(("has_traits_getattro",) + tuple(args))
+        return ex2.api.python_call(st, "has_traits_getattro", lambda r, s: k(r, s.gset("current_value", r)), lambda s: k(NULL, s), result_prefix="value")
+    return getattro
+
+
+def _dunder_summary(cx):
+    def is_dunder(ex2, args, st, k):
+        r = z3.Function("is_dunder_name", Obj, INT)(args[0])
+        e = cx.fresh("exc", INT)
+        return cx.branch(st, r >= 0, lambda s: k(r, s.assume(r <= 1)), lambda s: k(z3.IntVal(-1), s.assume(e >= 1, s.exc == 0).with_exc(e)))
+    return is_dunder
+
+
+def property_changed_extra(cx, ex, info, ret, st):
+    a = info["args"]
+    n = [r for r in st.trace if r[0] == "call_notifiers"]
+    gets = [r for r in st.trace if r[0] == "has_traits_getattro"]
+    out = [("post:handlers-notified-at-most-once", z3.BoolVal(len(n) <= 1)),
+           ("post:current-value-read-only-when-no-new-value-is-given", z3.Implies(z3.BoolVal(bool(gets)), a["new_value"] == NULL))]
+    if n:
+        new = a["new_value"] if not gets else st.ghost.get("current_value", NULL)
+        out.append(("post:handlers-get-(object, name, old, new)", z3.And(n[0][3] == a["obj"], n[0][4] == a["name"], n[0][5] == a["old_value"],
+                                                                          n[0][6] == new)))
+    return out
+
+
+CONVENTIONS["property_changed"] = (("obj", "name", "old_value", "new_value"), ("new_value",))
+with_summaries(safety("trait_property_changed", "property_changed", returns="int", props=("C18", "C12", "C02"), extra=property_changed_extra,
+                      assumptions=("get_trait, has_traits_getattro and call_notifiers through their contracts",),
+                      doc="trait_property_changed(name, old[, new]): C12 'a change of a property is announced once with truthful old and new': "
+                          "one notification round with (object, name, old, new), new being the current value when none is given"),
+               get_trait=_get_trait_summary, has_traits_getattro=_getattro_summary)
+CONVENTIONS["getattro"] = (("obj", "name"), ())
+with_summaries(safety("trait_getattro", "getattro", props=("C18",), doc="attribute read on a cTrait: unknown non-dunder names read as None"),
+               is_dunder_name=_dunder_summary)
